@@ -77,8 +77,9 @@ def render(v):
 
 
 class Specialiser:
-    def __init__(self, L, mod, fn, type_cls=None, dispatcher="process"):
+    def __init__(self, L, mod, fn, type_cls=None, dispatcher="process", env=None):
         self.L, self.mod, self.fn = L, mod, fn
+        self.init_env = dict(env or {})
         self.type_cls = type_cls
         self.dispatcher = dispatcher
         self.done = []
@@ -91,6 +92,7 @@ class Specialiser:
             st.env[a.arg] = ("param", a.arg)
         if self.type_cls is not None and self.fn.args.args and self.fn.args.args[0].arg == "tpm_type":
             st.env["tpm_type"] = ("type", self.type_cls)
+        st.env.update(self.init_env)
         outs = self.block(self.fn.body, [st])
         for s in outs:
             if s.status == "run":
@@ -196,6 +198,16 @@ class Specialiser:
                 v = ("rlist", tgt.id)
             if isinstance(val, ast.Dict) and not val.keys:
                 s.values[tgt.id] = set()
+                v = ("dict", tgt.id)
+            elif isinstance(val, ast.Dict) and all(k is not None for k in val.keys):
+                # a display with entries = an empty dict followed by one store per entry, in order
+                s.values[tgt.id] = set()
+                for kx, vx in zip(val.keys, val.values):
+                    k = self.ev(kx, s)
+                    if k[0] == "const":
+                        s.values[tgt.id].add(k[1])
+                    s.trace.append(Ev("store", st, key=k[1] if k[0] == "const" else render(k), value=self.ev(vx, s), dict=tgt.id,
+                                      static=k[0] == "const"))
                 v = ("dict", tgt.id)
             s.env[tgt.id] = v
             return [s]
@@ -389,6 +401,8 @@ class Specialiser:
                 if a[0] == "const" and b[0] == "ldict":
                     r = any(k == a[1] for k in b[1].keys())
                     return r if isinstance(op, ast.In) else not r
+                if b[0] == "emptydict":
+                    return isinstance(op, ast.NotIn)
                 return None
             if isinstance(op, (ast.Is, ast.IsNot)):
                 if a[0] == "type" and b[0] == "type":
@@ -487,6 +501,13 @@ class Specialiser:
             return ("ornone", self.ev(e.values[0], s))
         if isinstance(e, ast.Call):
             name = call_name(e)
+            if name == "getattr" and len(e.args) in (2, 3) and isinstance(e.args[1], ast.Constant) and isinstance(e.args[1].value, str):
+                b = self.ev(e.args[0], s)
+                if b[0] == "type" and isinstance(b[1], ClassV):
+                    if b[1].has(e.args[1].value):
+                        return self.ev(ast.Attribute(value=e.args[0], attr=e.args[1].value, ctx=ast.Load()), s)
+                    if len(e.args) == 3:
+                        return self.ev(e.args[2], s)
             if name == "PathNode":
                 a = e.args[0] if e.args else kwarg(e, "name")
                 return ("pathnode", self.ev(a, s))
